@@ -205,6 +205,9 @@ def check(ctx: Ctx, rep: Report):
     rep.rule("C18.R1", "no read-only entry point can reach the construction or use of a write / unknown command over the call graph; the command factories build what their name says", 38)
     rep.rule("C18.R2", "setter guards dominate every write-reaching call; documented rejections raise ValueError before any request", 9)
     rep.rule("C18.R3", "an unknown setting id raises ValueError without building a request", 3)
+    rep.rule("C18.R4", "a setting the inverter reports as non-existent becomes an unknown id: the tests that recognise that refusal compare against a reason text the validators produce (shared with C08.R3)", 4)
+    from .c08 import message_comparisons
+    message_comparisons(ctx, rep, "C18.R4")
     prog, res = ctx.prog, ctx.res
     wire = ctx.memo("wire", lambda: Wire(ctx))
     kinds = {}
